@@ -668,9 +668,10 @@ class ConnectModel(Unit):
         d = conn.__dict__
         if stage == 'ok':
             E.check('connect.success', outcome == 'returned' and d['connected'] is True and isinstance(d['socket'], GSock) and
-                    isinstance(d['file_object'], GFile) and len(d['_outgoing_packet_queue']) == 0 and
+                    isinstance(d.get('file_object'), GFile) and isinstance(d.get('_outgoing_packet_queue'), deque) and
+                    len(d['_outgoing_packet_queue']) == 0 and
                     d['options'].compression_enabled is False and d['options'].compression_threshold == -1,
-                    note='fresh empty queue, socket and file object, connected = True, and plain framing whatever the earlier '
+                    note='a fresh empty queue OF ITS OWN (an instance attribute, not one shared through the class), socket and file object, connected = True, and plain framing whatever the earlier '
                          'connection on this object had negotiated (the handshake of the new login goes out uncompressed)')
             E.check('connect.prefers-ipv4', ('socket', socket_mod.AF_INET) in log)
             qs = [v for v in d.values() if isinstance(v, deque)]
